@@ -5,25 +5,32 @@
     Design/Sem.v.  Each [potential_sample_conforms] of the model is shown to
     compute the corresponding clause of [Sem.constraint_ok] / [Sem.crossing_ok]
     on the same row and the same windows, for rows, windows, k, level numbers
-    and trial counts of any size; [C17_mismatch_iff_valid] assembles them for the
-    fragment [nfrag] of flat records (boolean predicate), and
-    [C17_mismatch_iff_valid_partial] for any design given the correspondence of each
-    component.
+    and trial counts of any size; [Factor.test_trial] / [_trial_arguments] are
+    shown to compute the factor-correctness clause of [Sem.factor_ok] (each
+    derived cell is a level whose table accepts the window cells, for windows
+    of any width, stride and start).  [C17_mismatch_iff_valid_derived] assembles
+    them for the fragment [dfrag] of flat records (boolean predicate; designs
+    WITH WithinTrial / Transition / Window factors), [C17_mismatch_iff_valid]
+    for its sub-fragment [nfrag] without derived factors, and
+    [C17_mismatch_iff_valid_partial] for any design given the correspondence of
+    each component.
 
     Full statement (not proved in general; kept for reference):
       forall fb s, accepted fb -> in_domain fb s ->
         (no_mismatch fb s = true <-> Sem.valid_b (code_sem fb) (tseq_of s) = true)
-    Missing outside [nfrag]: derived factors ([test_trial] against [Sem.accepts]:
-    needs the flat acceptance tables tied to the Sem tables), LatinSquare,
-    ExactlyKMultipleInARow (no documented meaning), and exclusions of crossed
-    levels (where the crossing clause alone is refuted,
-    [C17_crossing_clause_refuted], and the equivalence holds only through the
-    Exclude / derived-factor checks).  On the current /repo the full statement is
-    moreover false for designs with a weight-desugared hidden factor (KeyError:
-    the user-visible sample has no key for the hidden factor) - see the search of
-    harness/props/c17.py. *)
+    Missing outside [dfrag]: derived factors that read a factor absent in some
+    trial (a Transition of a Transition: the real predicate is then called on
+    [''], outside the flat tables), LatinSquare, ExactlyKMultipleInARow (no
+    documented meaning), and crossings in which some combination of crossed
+    levels is not admitted with its full weight - exclusions of crossed levels
+    and combinations made impossible by a derivation (where the crossing clause
+    alone is refuted, [C17_crossing_clause_refuted], and the equivalence holds
+    only through the Exclude / derived-factor checks).  On the current /repo the
+    full statement is moreover false for designs with a weight-desugared hidden
+    factor (KeyError: the user-visible sample has no key for the hidden factor)
+    - see the search of harness/props/c17.py. *)
 From Coq Require Import ZArith List Bool Arith Lia.
-From SP Require Import Design.Flat Design.Layout Check.Mismatch Check.MismatchProofs Check.CrossingProofs Check.FragmentProofs Check.NestProofs.
+From SP Require Import Design.Flat Design.Layout Check.Mismatch Check.MismatchProofs Check.CrossingProofs Check.FragmentProofs Check.NestProofs Check.DerivedFrag Check.DerivedProofs.
 From SP Require Design.Sem.
 Import ListNotations.
 
@@ -204,4 +211,96 @@ Example C17_example_nest :
   Sem.valid_b (code_sem_n nest_fb) nest_rows_by_trial = false /\
   mismatch nest_fb (cand_of_rows nest_rows_unsustained) = VLists [] [3] [0] /\
   Sem.valid_b (code_sem_n nest_fb) nest_rows_unsustained = false.
+Proof. vm_compute. repeat split. Qed.
+
+(** * Designs with derived factors (fragment [dfrag], Check/DerivedFrag.v)
+
+    [Factor.test_trial] at the first trial of a trial group: the model returns the
+    value of the reference clause "the cell is a level whose table accepts the
+    window cells" ([gs_cell]: [Sem.accepts] on [Sem.window_args]; no error: the
+    predicate is only called on argument tuples of [get_dependent_cross_product]).
+    Any window width / stride / start, any sustain count; arguments before the
+    first trial are [BeforeStart] on both sides. *)
+Theorem C17_derived_cell : forall fb rows f fd q,
+  dfrag fb = true -> wf_rows_d fb rows -> nth_error (fl_design fb) f = Some fd ->
+  q * su_of fb f < fl_trials fb ->
+  test_trial fb (cand_of_rows rows) f fd (q * su_of fb f) (su_of fb f)
+  = Ok (gs_cell fb rows f fd (q * su_of fb f)).
+Proof. exact test_trial_d. Qed.
+Print Assumptions C17_derived_cell.
+
+(** [sample_mismatch_factors] flags exactly the factors with a group start whose cell its table rejects. *)
+Theorem C17_factors_derived : forall fb rows, dfrag fb = true -> wf_rows_d fb rows ->
+  mismatch_factors fb (cand_of_rows rows)
+  = Ok (flagged (map (fun p => gs_ok fb rows (fst p) (snd p)) (combine (seq 0 (length (fl_design fb))) (fl_design fb)))).
+Proof. exact mismatch_factors_d. Qed.
+Print Assumptions C17_factors_derived.
+
+(** The factor clause of the reference semantics (applicability V2, derived levels V3, sustain V4) on a
+    candidate of the domain is: cells constant on trial groups, and every group start accepted. *)
+Theorem C17_factor_clause : forall fb rows f fd,
+  dfrag fb = true -> wf_rows_d fb rows -> nth_error (fl_design fb) f = Some fd ->
+  (Sem.factor_ok (code_sem_d fb) rows f (dfactor_of fb (f, fd)) = true
+   <-> V4f fb rows f /\ gs_ok fb rows f fd = true).
+Proof. exact factor_ok_d. Qed.
+Print Assumptions C17_factor_clause.
+
+(** [Sustain.potential_sample_conforms] with factors that do not apply in every trial. *)
+Theorem C17_sustain_derived : forall fb rows, dfrag fb = true -> wf_rows_d fb rows ->
+  exists b, sustain_conforms fb (cand_of_rows rows) = Ok b /\ (b = true <-> V4 fb rows).
+Proof. exact sustain_conforms_V4_d. Qed.
+Print Assumptions C17_sustain_derived.
+
+(** The whole checker on the fragment [dfrag]: [nfrag] plus derived factors of any
+    window shape (WithinTrial, Transition, Window(width, stride, start)) over factors
+    that have a level in every trial, crossed or not (a crossing starts at its
+    preamble; every crossed factor has a level from there on), with the generated
+    Derivation constraints.  Candidates ([wf_rowsb_d]): one level per trial where the
+    factor applies, '' (None) exactly where it does not.  [code_sem_d fb] carries the
+    windows and acceptance tables of the flat record. *)
+Theorem C17_mismatch_iff_valid_derived : forall fb rows,
+  dfrag fb = true -> wf_rowsb_d fb rows = true ->
+  (no_mismatch fb (cand_of_rows rows) = true <-> Sem.valid_b (code_sem_d fb) rows = true).
+Proof. exact dfrag_mismatch_iff_valid_b. Qed.
+Print Assumptions C17_mismatch_iff_valid_derived.
+
+(** ... in particular with within-trial derived factors only (width 1, stride 1, start 0). *)
+Theorem C17_mismatch_iff_valid_within : forall fb rows,
+  dfrag_w fb = true -> wf_rowsb_d fb rows = true ->
+  (no_mismatch fb (cand_of_rows rows) = true <-> Sem.valid_b (code_sem_d fb) rows = true).
+Proof. exact dfrag_w_mismatch_iff_valid_b. Qed.
+Print Assumptions C17_mismatch_iff_valid_within.
+
+(** [dfrag] contains [nfrag], where the reference design and the candidate domain are the old ones. *)
+Theorem C17_nfrag_dfrag : forall fb, nfrag fb = true -> dfrag fb = true.
+Proof. exact nfrag_dfrag. Qed.
+Print Assumptions C17_nfrag_dfrag.
+Theorem C17_nfrag_code_sem_d : forall fb, nfrag fb = true -> code_sem_d fb = code_sem_n fb.
+Proof. exact nfrag_code_sem_d. Qed.
+Print Assumptions C17_nfrag_code_sem_d.
+Theorem C17_nfrag_wf_rowsb_d : forall fb rows, nfrag fb = true -> wf_rowsb_d fb rows = wf_rowsb fb rows.
+Proof. exact nfrag_wf_rowsb_d. Qed.
+Print Assumptions C17_nfrag_wf_rowsb_d.
+
+(** The hypotheses are satisfiable beyond [nfrag]: the flat record of the real block
+    CrossBlock([color, word, cong, tr], [color, tr], [AtMostKInARow(2, (cong, con))]) with
+    cong = WithinTrial(color = word) and tr = Transition(color[-1] = color[0]) (5 trials, tr is ''
+    in trial 0, the crossing starts at trial 1): a valid sequence is accepted; a within-trial cell
+    and a transition cell their tables reject are flagged as factors; an unbalanced crossing with
+    every derived cell right is flagged as crossing. *)
+Example C17_example_derived_fragment : nfrag exd_fb = false /\ dfrag exd_fb = true /\ dfrag_w exd_fb = false.
+Proof. vm_compute. auto. Qed.
+Example C17_example_derived :
+  wf_rowsb_d exd_fb exd_rows_valid = true /\
+  mismatch exd_fb (cand_of_rows exd_rows_valid) = VLists [] [] [] /\
+  Sem.valid_b (code_sem_d exd_fb) exd_rows_valid = true /\
+  wf_rowsb_d exd_fb exd_rows_bad_within = true /\
+  mismatch exd_fb (cand_of_rows exd_rows_bad_within) = VLists [2] [] [] /\
+  Sem.valid_b (code_sem_d exd_fb) exd_rows_bad_within = false /\
+  wf_rowsb_d exd_fb exd_rows_bad_transition = true /\
+  mismatch exd_fb (cand_of_rows exd_rows_bad_transition) = VLists [3] [] [] /\
+  Sem.valid_b (code_sem_d exd_fb) exd_rows_bad_transition = false /\
+  wf_rowsb_d exd_fb exd_rows_bad_crossing = true /\
+  mismatch exd_fb (cand_of_rows exd_rows_bad_crossing) = VLists [] [] [0] /\
+  Sem.valid_b (code_sem_d exd_fb) exd_rows_bad_crossing = false.
 Proof. vm_compute. repeat split. Qed.
